@@ -1,4 +1,4 @@
-#!/venv/bin/python
+#!/usr/bin/env python3
 """Confirm benign refactors (behaviour-preserving edits made by independent sub-agents) against the current /repo HEAD and keep the
 confirmed ones as twins/<ID>-b<n>/ (patch.diff, check.py, meta.json).  Confirmed = applies, the agent's own property check still
 exits 0 with the edit applied, and the pinned suite is unchanged (216 passed / 3 failed / 15 errors).
